@@ -27,7 +27,7 @@ RULE = ("Hypothesis op lists (<= 30 ops, each one integer = weighted op code x 3
         "(I6) an automatically assigned uid is unused; non-trivial = history with >= 1 rejected operation "
         "and >= 1 successful re-keying of a non-last member; distinct = op list")
 ASSUMPTIONS = [
-    "operations are applied only through addRemote/moveRemote/renameRemote/rehaRemote/removeRemote; device attributes are never assigned by the harness",
+    "operations are applied only through addRemote/moveRemote/renameRemote/rehaRemote/removeRemote; device attributes are never assigned by the harness; every string key handed to the stack is an equal but not identical object (as keys read from the wire are)",
     "'rejected' = the operation raised any exception (ValueError normally; removeRemote of a non-identical device raises NameError from its message formatting, still a rejection)",
     "re-keying to the current key is a successful no-op (as coded) and must change nothing",
     "iteration order = order of odict.keys()/values()",
@@ -49,6 +49,14 @@ HAS = ["h1", "h2", "h3", ""]       # one falsy address (what Device assigns when
 LOCAL = (1, "n1", "h1")
 # escape keys, used only as the target of a constructive ("to a free key") re-keying
 XUIDS, XNAMES, XHAS = [5, 6, 7, 8], ["n5", "n6", "n7", "n8"], ["h5", "h6", "h7", "h8"]
+
+def fresh(v):
+    """An equal but not identical object for a string key (keys that arrive over the wire or are built with format()
+    are never the same objects as the ones a stack already holds); other keys are returned as they are."""
+    if isinstance(v, str) and len(v) >= 2:
+        return "".join(list(v))
+    return v
+
 
 # op codes (weights by repetition)
 KINDS = ["new", "newfree", "newfree", "newfree", "foreign", "add", "move", "move", "rename", "rename", "reha", "reha", "remove"]
@@ -131,7 +139,7 @@ def invariants(stack):
 def run_case(ops):
     """ops: list of integers in range(NOPS). Returns (fails, info)."""
     from ioflo.aio.proto import stacking, devicing
-    stack = stacking.RemoteStack(uid=LOCAL[0], name=LOCAL[1], ha=LOCAL[2])
+    stack = stacking.RemoteStack(uid=LOCAL[0], name=fresh(LOCAL[1]), ha=fresh(LOCAL[2]))
     pool = []
     fails = []
     info = {"decoded": [], "rejected": 0, "accepted": 0, "rekey_nonlast": 0, "foreign_ops": 0, "auto": 0, "maxsize": 0,
@@ -147,7 +155,7 @@ def run_case(ops):
         target = None
         if kind in ("new", "foreign"):
             try:
-                target = devicing.RemoteDevice(stack=stack, uid=op[1], name=op[2], ha=op[3])
+                target = devicing.RemoteDevice(stack=stack, uid=op[1], name=fresh(op[2]), ha=fresh(op[3]))
             except Exception as ex:
                 fails.append(("device-create-%s" % type(ex).__name__, "step %d %r: RemoteDevice(...) raised %r" % (stepno, op, ex)))
                 break
@@ -188,9 +196,9 @@ def run_case(ops):
             elif kind == "move":
                 stack.moveRemote(target, op[2])
             elif kind == "rename":
-                stack.renameRemote(target, op[2])
+                stack.renameRemote(target, fresh(op[2]))
             elif kind == "reha":
-                stack.rehaRemote(target, op[2])
+                stack.rehaRemote(target, fresh(op[2]))
             elif kind == "remove":
                 stack.removeRemote(target)
         except Exception as ex:
